@@ -61,8 +61,8 @@ theorem mainLoop_iterations_le (P : Problem α) (dir : Direction D α) (pr : Par
       rw [hf.1] at this
       omega
 
-theorem initState_k (P : Problem α) (d0 : D) (pr : Params α) (x0 gV : Vec α) (gS : α) (s : St α D)
-    (h : initState P d0 pr x0 gV gS = .inr s) : s.k = 0 ∧ s.noProgress = 0 ∧ s.cbs = [] := by
+theorem initState_k (P : Problem α) (d0 : D) (pr : Params α) (stop : Nat → Bool) (x0 gV : Vec α)
+    (gS : α) (s : St α D) (h : initState P d0 pr stop x0 gV gS = .inr s) : s.k = 0 ∧ s.noProgress = 0 ∧ s.cbs = [] := by
   unfold initState at h
   simp only [] at h
   split_ifs at h
@@ -76,12 +76,12 @@ theorem iterations_le_max_iter (P : Problem α) (dir : Direction D α) (d0 : D) 
     (stop : Nat → Bool) (oot : Bool) (x0 y Sig errz0 gV : Vec α) (gS : α) :
     (run P dir d0 pr stop oot x0 y Sig errz0 gV gS).stats.iterations ≤ pr.maxIter := by
   unfold run
-  cases hi : initState P d0 pr x0 gV gS with
+  cases hi : initState P d0 pr stop x0 gV gS with
   | inl t => simp [stats0]
   | inr s =>
     simp only []
     exact mainLoop_iterations_le P dir pr stop oot x0 y Sig errz0 _ s
-      (by rw [(initState_k P d0 pr x0 gV gS s hi).1]; exact Nat.zero_le _)
+      (by rw [(initState_k P d0 pr stop x0 gV gS s hi).1]; exact Nat.zero_le _)
 
 /-! ### The exit status is the generated chain at the last loop head -/
 
@@ -89,7 +89,7 @@ theorem iterations_le_max_iter (P : Problem α) (dir : Direction D α) (d0 : D) 
     `none` when the solver returned before the main loop (non-finite Lipschitz estimate). -/
 def finalHead (P : Problem α) (dir : Direction D α) (d0 : D) (pr : Params α) (stop : Nat → Bool)
     (oot : Bool) (x0 gV : Vec α) (gS : α) : Option (St α D) :=
-  match initState P d0 pr x0 gV gS with
+  match initState P d0 pr stop x0 gV gS with
   | .inl _ => none
   | .inr s => some (headStep P pr stop oot (lastHead P dir pr stop oot (pr.maxIter + 2) s)).1
 
@@ -105,7 +105,7 @@ theorem run_eq_exit (P : Problem α) (dir : Direction D α) (d0 : D) (pr : Param
         (statusOf pr sh.k (epsOf P pr sh.curr) sh.noProgress oot (stop sh.tick)) x0 y Sig errz0 := by
   unfold finalHead at hh
   unfold run at hfuel ⊢
-  cases hi : initState P d0 pr x0 gV gS with
+  cases hi : initState P d0 pr stop x0 gV gS with
   | inl t => rw [hi] at hh; exact absurd hh (by simp)
   | inr s =>
     rw [hi] at hh
@@ -279,7 +279,7 @@ theorem lastHead_np (P : Problem α) (dir : Direction D α) (pr : Params α) (st
     reported by callback `k` against the next current `x`). -/
 def runFlags (P : Problem α) (dir : Direction D α) (d0 : D) (pr : Params α) (stop : Nat → Bool)
     (oot : Bool) (x0 gV : Vec α) (gS : α) : List Bool :=
-  match initState P d0 pr x0 gV gS with
+  match initState P d0 pr stop x0 gV gS with
   | .inl _ => []
   | .inr s => stepFlags P dir pr stop oot (pr.maxIter + 2) s
 
@@ -296,13 +296,13 @@ theorem no_progress_counter_is_npRun (P : Problem α) (dir : Direction D α) (d0
       ((runFlags P dir d0 pr stop oot x0 gV gS).reverse.takeWhile (· = true)).length := by
   unfold finalHead at hh
   unfold runFlags
-  cases hi : initState P d0 pr x0 gV gS with
+  cases hi : initState P d0 pr stop x0 gV gS with
   | inl t => rw [hi] at hh; exact absurd hh (by simp)
   | inr s =>
     rw [hi] at hh
     simp only []
     injection hh with hh
-    have hk := initState_k P d0 pr x0 gV gS s hi
+    have hk := initState_k P d0 pr stop x0 gV gS s hi
     have hl := lastHead_np P dir pr stop oot (pr.maxIter + 2) s
     have hf := headStep_fields P pr stop oot (lastHead P dir pr stop oot (pr.maxIter + 2) s)
     rw [hk.1, hk.2.1] at hl
